@@ -20,6 +20,10 @@ structure St where
   seenI : List Nat        -- I-model versions in order of first occurrence
   seenS : List Nat        -- Spec versions likewise
 
+/-- the token "~" stands for the EMPTY key / pattern -/
+def kk (s : String) : String := if s = "~" then "" else s
+def showK (s : String) : String := if s.isEmpty then "~" else s
+
 def optS (s : String) : String := if s = "-" then "" else s
 def showS (s : String) : String := if s.isEmpty then "-" else s
 def parseExp (s : String) : Option (Option Nat) := if s = "-" then some none else s.toNat?.map some
@@ -47,23 +51,23 @@ def render (seen : List Nat) : Out → List Nat × String
       | some (val, v, exp) => let (s', n) := nameOf s v; (s', acc ++ [s!"{showS val}:{n}:{showExp exp}"])) (seen, [])
     (s, "recs [" ++ ",".intercalate parts ++ "]")
   | .ok => (seen, "ok") | .errNotExist => (seen, "ErrNotExist") | .errConflict => (seen, "ErrConflict")
-  | .keys l => (seen, "keys [" ++ ",".intercalate l ++ "]")
+  | .keys l => (seen, "keys [" ++ ",".intercalate (sortStrings (l.map showK)) ++ "]")
   | .waitNil => (seen, "nil") | .blocks => (seen, "blocks") | .otherErr => (seen, "otherErr")
 
 def parseOp (seen : List Nat) : List String → Option Op
-  | ["create", k, v, e] => do pure (.create k (optS v) (← parseExp e))
-  | ["get", k] => some (.get k)
-  | ["getmany", ks] => some (.getMany (if ks = "-" then [] else ks.splitOn ","))
-  | ["put", k, v, e] => do pure (.put k (optS v) (← parseExp e))
+  | ["create", k, v, e] => do pure (.create (kk k) (optS v) (← parseExp e))
+  | ["get", k] => some (.get (kk k))
+  | ["getmany", ks] => some (.getMany (if ks = "-" then [] else (ks.splitOn ",").map kk))
+  | ["put", k, v, e] => do pure (.put (kk k) (optS v) (← parseExp e))
   | ["putmany", rs] =>
     if rs = "-" then some (.putMany []) else
     (rs.splitOn ",").mapM (fun (r : String) => match r.splitOn ":" with
-      | [k, v, e] => do pure (k, optS v, ← parseExp e)
+      | [k, v, e] => do pure (kk k, optS v, ← parseExp e)
       | _ => none) |>.map .putMany
-  | ["cas", k, ver, v, e] => do pure (.cas k (← verOf seen ver) (optS v) (← parseExp e))
-  | ["delete", k] => some (.delete k)
-  | ["list", p] => some (.list p)
-  | ["wait", k, ver] => do pure (.wait k (← verOf seen ver))
+  | ["cas", k, ver, v, e] => do pure (.cas (kk k) (← verOf seen ver) (optS v) (← parseExp e))
+  | ["delete", k] => some (.delete (kk k))
+  | ["list", p] => some (.list (kk p))
+  | ["wait", k, ver] => do pure (.wait (kk k) (← verOf seen ver))
   | _ => none
 
 def comp : Component where
